@@ -6,6 +6,7 @@ import (
 	"strings"
 
 	"github.com/lab5e/lospan/pkg/band"
+	"github.com/lab5e/lospan/pkg/protocol"
 
 	"lospanverif/internal/hx"
 )
@@ -253,6 +254,9 @@ func ctlRaces(c *ctx, file func() string) error {
 			return err
 		}
 		confirmed := s%2 == 0
+		if kind == "two-copies" || kind == "three-copies" {
+			confirmed = (s/4)%3 != 2
+		}
 		f5, err := h.uplinkFrame(d, 5, confirmed, false, []byte{0x55, byte(s), 1})
 		if err != nil {
 			return err
@@ -289,6 +293,33 @@ func ctlRaces(c *ctx, file func() string) error {
 					return err
 				}
 			}
+			if (s/4)%2 == 0 {
+				// the targeted schedule: the last copy's handler reads the device, then everything else
+				// runs to completion (the answer is out), then the late copy goes on with its stale view
+				if p := h.g.parked(); len(p) > 0 {
+					late := p[len(p)-1]
+					sched = append(sched, late.op+"(late copy)")
+					if err := h.stepArrival(late, false); err != nil {
+						return err
+					}
+					for i := 0; i < 200 && !h.failed; i++ {
+						var next *arrival
+						for _, a := range h.g.parked() {
+							if a.gid != late.gid {
+								next = a
+								break
+							}
+						}
+						if next == nil {
+							break
+						}
+						sched = append(sched, next.op)
+						if err := h.stepArrival(next, false); err != nil {
+							return err
+						}
+					}
+				}
+			}
 		default: // "uplink-vs-encoder", "old-counter-vs-encoder"
 			// confirmed uplink 5 runs until its encoder stands before the counter operation
 			f5c, err := h.uplinkFrame(d, 5, true, false, []byte{0x55, byte(s), 1})
@@ -296,6 +327,14 @@ func ctlRaces(c *ctx, file func() string) error {
 				return err
 			}
 			f5 = f5c
+			if kind == "uplink-vs-encoder" && (s/4)%3 == 1 {
+				// a queued message the API accepts but the frame encoder cannot encode (FPort above 223):
+				// the encoder of uplink 5 gives up after it has fetched the counter
+				if err := h.submit(d, 224+s%32, []byte{0xee, byte(s)}, s%8 < 4); err != nil {
+					return err
+				}
+				c.res.Count("scenario=unencodable-downlink")
+			}
 			if err := h.inject("uplink 5", f5, nil, 0); err != nil {
 				return err
 			}
@@ -401,8 +440,35 @@ func ctlRaces(c *ctx, file func() string) error {
 			}
 			emitted = append(emitted, stateSections(st2)["emitted"])
 		}
+		followUp := ""
+		if (kind == "two-copies" || kind == "three-copies") && !h.failed {
+			// afterwards: an unconfirmed uplink with nothing queued. Nothing is owed to it - not a frame,
+			// and certainly not an acknowledgement left over from a copy that was not accepted
+			f6u, err := h.uplinkFrame(d, 6, false, false, []byte{0x66, byte(s), 3})
+			if err != nil {
+				return err
+			}
+			if err := h.inject("unconfirmed uplink 6, nothing queued", f6u, nil, 0); err != nil {
+				return err
+			}
+			if err := h.drain(); err != nil {
+				return err
+			}
+			st2, err := h.compare("unconfirmed uplink 6 after the copies")
+			if err != nil {
+				return err
+			}
+			followUp = stateSections(st2)["emitted"]
+			emitted = append(emitted, followUp)
+		}
 		// ---- oracles (the races these schedules used to expose are fixed: see known_findings.json)
 		if !h.failed {
+			if followUp != "" && c.prop == "C09" {
+				if ds, err := h.decodeDowns(d, followUp); err == nil && len(ds) > 0 {
+					h.c.res.Add(hx.Finding{Kind: "propfail", Engine: "pipectl", Signature: "unconfirmed-uplink-answered-nothing-pending", Case: append([]pipeEvent{}, h.trace...), Impl: ds[0].raw, Spec: "no downlink",
+						Note: fmt.Sprintf("C09: an unconfirmed uplink with nothing queued was answered (ACK flag %v) after copies of the previous uplink were handled under schedule %s", ds[0].ack, strings.Join(sched, ","))})
+				}
+			}
 			full, _ := h.rig.stateText(h.euis)
 			if dups := inboxDuplicates(full, d.eui); len(dups) > 0 && c.prop == "C03" && !d.relaxed {
 				sig := "concurrent-copies-recorded-twice"
@@ -429,6 +495,10 @@ func ctlRaces(c *ctx, file func() string) error {
 					}
 					seen[x.fcnt] = x.raw
 				}
+			}
+			if (kind == "two-copies" || kind == "three-copies") && !confirmed && acks > 0 && c.prop == "C09" {
+				h.c.res.Add(hx.Finding{Kind: "propfail", Engine: "pipectl", Signature: "ack-not-owed", Case: append([]pipeEvent{}, h.trace...), Impl: fmt.Sprintf("%d ACK downlinks", acks),
+					Note: "C09: an ACK downlink although no confirmed uplink was accepted, under schedule " + strings.Join(sched, ",")})
 			}
 			if (kind == "two-copies" || kind == "three-copies") && confirmed && acks > 1 && c.prop == "C09" {
 				h.c.res.Add(hx.Finding{Kind: "propfail", Engine: "pipectl", Signature: "concurrent-copies-two-answers", Case: append([]pipeEvent{}, h.trace...), Impl: fmt.Sprintf("%d ACK downlinks", acks),
@@ -563,6 +633,19 @@ func ctlJoinCopies(c *ctx, file func() string) error {
 	return nil
 }
 
+// inboxData: the recorded payloads of a device, in the order of the listing.
+func inboxData(state string, eui protocol.EUI) []string {
+	var out []string
+	for _, l := range strings.Split(stateSections(state)["inbox"], ";") {
+		f := strings.Fields(l)
+		if len(f) < 4 || f[1] != hx.H(eui.Octets[:]) {
+			continue
+		}
+		out = append(out, strings.TrimPrefix(f[3], "data="))
+	}
+	return out
+}
+
 // ---- one frame authenticating for two devices (same DevAddr, same NwkSKey): canonical schedule
 
 func ctlSharedKey(c *ctx, file func() string) error {
@@ -587,6 +670,7 @@ func ctlSharedKey(c *ctx, file func() string) error {
 		h.g.enabled = true
 		h.g.mu.Unlock()
 		fc := 4
+		prevState := ""
 		for ev := 0; ev < 6+r.Intn(6) && !h.failed; ev++ {
 			d := []*simDev{a, b}[r.Intn(2)]
 			switch r.Intn(4) {
@@ -603,18 +687,40 @@ func ctlSharedKey(c *ctx, file func() string) error {
 				continue
 			default:
 				fc += r.Intn(3)
-				fr, err := h.uplinkFrame(d, fc, r.Intn(2) == 0, r.Intn(3) == 0, []byte{byte(ev), byte(s), 3})
+				plain := []byte{byte(ev), byte(s), 3}
+				fr, err := h.uplinkFrame(d, fc, r.Intn(2) == 0, r.Intn(3) == 0, plain)
 				if err != nil {
 					return err
 				}
+				before := prevState
 				if err := h.inject(fmt.Sprintf("uplink fcnt=%d", fc), fr, nil, 0); err != nil {
 					return err
 				}
 				if err := h.drain(); err != nil {
 					return err
 				}
-				if _, err := h.compare(fmt.Sprintf("uplink fcnt=%d (two devices authenticate)", fc)); err != nil {
+				after, err := h.compare(fmt.Sprintf("uplink fcnt=%d (two devices authenticate)", fc))
+				if err != nil {
 					return err
+				}
+				if after != "" {
+					prevState = after
+				}
+				// the sender's own record: when the frame was recorded for the device that sent it, what
+				// is recorded is that device's plaintext (the twin's record is that twin's decryption)
+				if nb, na := inboxData(before, d.eui), inboxData(after, d.eui); !h.failed && after != "" && len(na) > len(nb) {
+					found := false
+					for _, x := range na[len(nb):] {
+						if x == hx.H(plain) {
+							found = true
+						}
+					}
+					if !found && c.prop == "C02" {
+						h.c.res.Add(hx.Finding{Kind: "propfail", Engine: "pipectl", Signature: "uplink-not-recovered", Case: append([]pipeEvent{}, h.trace...),
+							Impl: strings.Join(na[len(nb):], ","), Spec: hx.H(plain),
+							Note: "C02: the frame was accepted and recorded for the device that sent it, but what is recorded is not the payload the device encrypted (a second device shares its address and network session key)"})
+						h.failed = true
+					}
 				}
 			}
 		}
